@@ -1,6 +1,7 @@
 """C09 - TCP/TLS byte streams are delivered exactly, in order, under partial I/O (DESIGN 2.C09)."""
 from ..core import Mutant, norm
 from .. import tcp
+from ..astutil import keytext
 
 EXPLANATION = ("C09: for Client, ClientTls, Remoter, RemoterTls: serviceSends only deletes the prefix [:count] that "
                "send(txbs) reported in the same iteration; send returns the kernel's count or 0; tx only extends; every "
@@ -50,7 +51,7 @@ def check(run):
             for attr in ("txbs", "rxbs"):
                 for kind, node in tcp.buffer_mutations(f, attr):
                     ok = f.name in ALLOWED
-                    run.ob("C09.R4", "%s:writes-%s:%s" % (f.fq, attr, norm(node)), ok, run.site(f, node),
+                    run.ob("C09.R4", "%s:writes-%s:%s" % (f.fq, attr, keytext(f, node)), ok, run.site(f, node),
                            "" if ok else "%s is written outside tx/serviceSends/serviceReceive*/clearRxbs: `%s`" % (attr, norm(node)))
                     n += 1
     run.floor("C09.R1", 12)
